@@ -40,6 +40,29 @@ impl EnvCase {
     }
 }
 
+impl Case for EnvCase {
+    fn to_json(&self) -> Value {
+        self.json()
+    }
+    fn from_json(v: &Value) -> Option<Self> {
+        Some(EnvCase {
+            height: v["height"].as_u64()?,
+            nanos: v["nanos"].as_u64()?,
+            chain: v["chain"].as_str()?.to_string(),
+            contract: v["contract"].as_str()?.to_string(),
+            tx: v["tx"].as_u64().map(|t| t as u32),
+            sender: v["sender"].as_str()?.to_string(),
+            funds: v["funds"]
+                .as_array()?
+                .iter()
+                .map(|f| Some((f[0].as_str()?.to_string(), f[1].as_str()?.parse().ok()?)))
+                .collect::<Option<Vec<_>>>()?,
+            nonce: v["nonce"].as_u64()?,
+            fail: v["fail"].as_bool()?,
+        })
+    }
+}
+
 pub fn env_strategy() -> BoxedStrategy<EnvCase> {
     (
         any::<u64>(),
@@ -162,7 +185,6 @@ pub fn run(p: &Prog, cfg: &Cfg, rep: &mut Report) {
             &h.id,
             (args_strategy(&h.conc), env_strategy()).boxed(),
             rep,
-            |(a, e)| json!({"args": a, "env": e.json()}),
             |(args, case), tally| {
                 tally.class(&format!("kind:{}", h.kind.attr()));
                 tally.class(if h.part == 0 { "part:contract" } else { "part:interface" });
